@@ -171,7 +171,7 @@ CHECKS["C11"] = dict(
           "random vectors of 4..12 tokens, each also rendered as a shell-quoted command string. Discharged for all inputs are only the "
           "registered option table (syntactic obligations on the real ast) and CompileCommand.arguments (the arguments form is "
           "returned unchanged, an empty list included; otherwise shlex.split(command)). Thirteen deviations are recorded as "
-          "known findings."),
+          "known findings (FINDINGS.md)."),
     design_ref="DESIGN.md section 5 C11, section 9",
     note="A6 argparse/shlex unverified; bound stated in evidence.coverage.bounded; tokens exhibiting recorded findings are run in a separate target so that they cannot mask new failures.",
     technique="contract on the real function checked up to a stated bound (native), option table by syntactic obligations; deductive proof not applicable to argparse",
